@@ -10,6 +10,7 @@ import Driver.Breaker
 import Driver.Queue
 import Driver.Grammar
 import Driver.Store
+import Driver.Craft
 import Driver.ReadGate
 import Driver.Subscription
 import Driver.Protocol
@@ -23,6 +24,7 @@ structure DState where
   breaker : Option SierraModel.Breaker.Sys := none
   c12 : Driver.Queue.St := {}
   store : Driver.Store.St := {}
+  craft : Driver.Craft.St := {}
   c07 : Driver.ReadGate.St := {}
   c09 : Option SierraModel.Subscription.Sys := none
   c10 : Driver.Protocol.St := {}
@@ -37,6 +39,7 @@ def step (st : DState) (toks : List String) : DState × String :=
   | "c10" :: rest => let (p, r) := Protocol.c10 st.c10 rest; ({ st with c10 := p }, r)
   | "c09" :: rest => let (c, r) := Subscription.c09 st.c09 rest; ({ st with c09 := c }, r)
   | "c07" :: rest => let (g, r) := ReadGate.c07 st.c07 rest; ({ st with c07 := g }, r)
+  | "rd" :: rest => let (c, r) := Craft.step st.craft rest; ({ st with craft := c }, r)
   | "c26" :: rest => let (b, r) := Breaker.c26 st.breaker rest; ({ st with breaker := b }, r)
   | "c12" :: rest => let (q, r) := Queue.c12 st.c12 rest; ({ st with c12 := q }, r)
   | "c21" :: rest => (st, Grammar.c21 rest)
